@@ -59,13 +59,11 @@ impl Default for Options {
 
 pub trait Parse: Sized {
 	fn parse_slice(content: &[u8]) -> Result<(Self, CodeMap), Error> {
-		Self::parse_utf8(utf8_decode::Decoder::new(content.iter().copied()))
-			.map_err(Error::io_into_utf8)
+		Self::parse_utf8(Utf8Chars::new(content)).map_err(Error::io_into_utf8)
 	}
 
 	fn parse_slice_with(content: &[u8], options: Options) -> Result<(Self, CodeMap), Error> {
-		Self::parse_utf8_with(utf8_decode::Decoder::new(content.iter().copied()), options)
-			.map_err(Error::io_into_utf8)
+		Self::parse_utf8_with(Utf8Chars::new(content), options).map_err(Error::io_into_utf8)
 	}
 
 	fn parse_str(content: &str) -> Result<(Self, CodeMap), Error> {
@@ -146,6 +144,51 @@ pub trait Parse: Sized {
 	) -> Result<Meta<Self, usize>, Error<E>>
 	where
 		C: Iterator<Item = Result<DecodedChar, E>>;
+}
+
+/// Strict UTF-8 decoder over a byte slice.
+///
+/// Yields an error at the first ill-formed sequence (overlong encodings,
+/// encoded surrogates and values above U+10FFFF included).
+struct Utf8Chars<'a> {
+	bytes: &'a [u8],
+}
+
+impl<'a> Utf8Chars<'a> {
+	fn new(bytes: &'a [u8]) -> Self {
+		Self { bytes }
+	}
+}
+
+impl<'a> Iterator for Utf8Chars<'a> {
+	type Item = Result<char, io::Error>;
+
+	fn next(&mut self) -> Option<Self::Item> {
+		let len = match *self.bytes.first()? {
+			0x00..=0x7f => 1,
+			0xc2..=0xdf => 2,
+			0xe0..=0xef => 3,
+			0xf0..=0xf4 => 4,
+			_ => 0,
+		};
+
+		let decoded = self
+			.bytes
+			.get(..len)
+			.and_then(|bytes| core::str::from_utf8(bytes).ok())
+			.and_then(|s| s.chars().next());
+
+		match decoded {
+			Some(c) => {
+				self.bytes = &self.bytes[len..];
+				Some(Ok(c))
+			}
+			None => Some(Err(io::Error::new(
+				io::ErrorKind::InvalidData,
+				"invalid UTF-8 sequence",
+			))),
+		}
+	}
 }
 
 /// JSON parser.
